@@ -1429,7 +1429,7 @@ func (sc *serverConn) skipFields(b []byte, fields int, last bool) ([]byte, int, 
 			return nil, fields, NewGoAwayError(CompressionError, err.Error())
 		}
 
-		if len(b) == 0 && hf.Empty() {
+		if !sc.dec.fieldDecoded {
 			// Ended in a dynamic table size update: no field.
 			break
 		}
@@ -1603,7 +1603,7 @@ func (sc *serverConn) handleHeaderFrame(strm *Stream, fr *FrameHeader) error {
 			break
 		}
 
-		if len(b) == 0 && hf.Empty() {
+		if !sc.dec.fieldDecoded {
 			// The fragment ended in a dynamic table size update, which
 			// consumes input without producing a field: there is nothing to
 			// validate or to hand to the request yet.
